@@ -124,7 +124,12 @@ def run(ctx):
     if final_l is not None:
         nm = b.local_name(final_l)
         n_sc = 0
+        _cands = nst.calls(lambda tt: tt['func'].get('fn') == 'pk::candidate')
+        _lps = nst.loops_around(_cands[0][0]) if len(_cands) == 1 else []
+        _replica_body = _lps[0]['loop']['body'] if _lps else set()
         for bi, t in b.calls():
+            if is_trait_call(t, 'State', 'score') and bi in _replica_body:
+                continue        # a score evaluated inside one replica (e.g. logged per replica) is not "the logged final score"
             if is_trait_call(t, 'State', 'score'):
                 n_sc += 1
                 oo, _ = through(tr, t['args'][0])
@@ -401,8 +406,25 @@ def _main(ctx):
     pf = pipeline_fn(f)[0]
     sites = [(bi, tt) for bi, tt in m.calls() if (callee_name(tt) or '') == pf.path]
     rep.floor('R5', 'calls of the pipeline function in main', len(sites), 5, where(m))
+    # parameter roles of the pipeline function by type (not by position: an added flag must not shift them)
+    role = {}
+    for i in pf.args():
+        ty = pf.local_ty(i)
+        if 'PathBuf' in ty or ty.endswith('Path'):
+            role.setdefault('outfile', i - 1)
+        elif ty.startswith('impl ') or 'State' in ty:
+            role.setdefault('state', i - 1)
+        elif 'BuildOptimiser' in ty:
+            role.setdefault('optimisation', i - 1)
+        elif ty == 'u64' or ty == 'usize':
+            role.setdefault('replications', i - 1)
+    if not rep.check(set(role) == {'outfile', 'state', 'optimisation', 'replications'}, 'R5', 'pipeline-parameter-roles', where(pf),
+                     'outfile/replications/state/optimisation = arguments %s' % role,
+                     'cannot identify the pipeline function\'s parameters by type: %s' % role, 'undecidable-shape'):
+        return
     for n_arm, (bi, tt) in enumerate(sites):
-        a = tt['args']
+        args_ = tt['args']
+        a = [args_[role['outfile']], args_[role['replications']], args_[role['state']], args_[role['optimisation']]]
         o0 = t.origin(a[0])
         o1 = t.origin(a[1])
         o3, _ = through(t, a[3])
